@@ -18,7 +18,7 @@ check rebuilds
 with N0 = 1/snr (the library's curves assume unit transmitted energy, which is
 checked on the emitted table), Q from libm's erfc, and `exact` = Craig's
 integral (1/pi) int_0^{pi - pi/M} exp(-dmin^2/(4 N0 sin^2 t)) dt evaluated with
-a fixed 2 x 96-point Gauss-Legendre rule whose nodes are computed here by
+a fixed composite 96-point Gauss-Legendre rule whose nodes are computed here by
 Newton iteration on the Legendre recurrence.  The rule is validated on every
 run against the two closed forms it must reproduce (M=2: Q, M=4: 2Q-Q^2).
 """
@@ -100,8 +100,9 @@ def build(kind, M, hist):
 
 
 def kind_label(kind, hist):
-    if kind in ("psk", "qpsk") and any(ev[0] == "set" for ev in hist):
-        return kind + "_after_setPhaseOffset"
+    """label used in signatures (QPSK is a PSK)"""
+    if kind in ("psk", "qpsk"):
+        return "psk_after_setPhaseOffset" if any(ev[0] == "set" for ev in hist) else "psk"
     return kind
 
 
@@ -146,24 +147,30 @@ def gauss_legendre(n):
 _GL = gauss_legendre(GL_ORDER)
 
 
-def craig(a, upper):
-    """(1/pi) * integral_0^upper exp(-a / sin^2 t) dt for an array `a` >= 0;
-    panels split at pi/2 (the integrand peaks there) and subdivided so that the
-    peak of width ~ 1/sqrt(a) is resolved"""
+def craig(a, upper, refine=False):
+    """(1/pi) * integral_0^upper exp(-a / sin^2 t) dt for an array `a` >= 0.
+    Fixed composite rule: panel edges accumulate geometrically at 0 and pi
+    (the integrand switches on where sin t ~ sqrt(a)) and at pi/2 (for large a
+    it is a peak of width ~ 1/sqrt(a)); `refine` halves every panel (used only
+    to validate the rule against itself)."""
     a = np.asarray(a, dtype=float)
     x, w = _GL
-    edges = [0.0]
     half = math.pi / 2
-    cuts = [half - d for d in (1.0, 0.5, 0.25, 0.12, 0.06, 0.03, 0.015) if 0 < half - d < upper]
-    cuts += [half] if half < upper else []
-    cuts += [half + d for d in (0.015, 0.03, 0.06, 0.12, 0.25, 0.5, 1.0) if half + d < upper]
-    edges = [0.0] + sorted(cuts) + [upper]
+    geo = [2.0 ** -k for k in range(0, 21)]
+    cuts = set(geo) | set(math.pi - g for g in geo) | {half}
+    for d in (0.5, 0.25, 0.12, 0.06, 0.03, 0.015):
+        cuts |= {half - d, half + d}
+    edges = [0.0] + sorted(c for c in cuts if 0.0 < c < upper) + [upper]
+    if refine:
+        mids = [0.5 * (lo + hi) for lo, hi in zip(edges[:-1], edges[1:])]
+        edges = sorted(edges + mids)
     tot = np.zeros(a.shape)
-    for lo, hi in zip(edges[:-1], edges[1:]):
-        t = 0.5 * (hi - lo) * x + 0.5 * (hi + lo)
-        s2 = np.sin(t) ** 2
-        f = np.exp(-a[..., None] / s2)
-        tot = tot + 0.5 * (hi - lo) * (f * w).sum(axis=-1)
+    with np.errstate(under="ignore"):
+        for lo, hi in zip(edges[:-1], edges[1:]):
+            t = 0.5 * (hi - lo) * x + 0.5 * (hi + lo)
+            s2 = np.sin(t) ** 2
+            f = np.exp(-a[..., None] / s2)
+            tot = tot + 0.5 * (hi - lo) * (f * w).sum(axis=-1)
     return tot / math.pi
 
 
@@ -236,7 +243,9 @@ def check_vector(chk, lab, m, geo, snr_db, Ls, spec, form):
     dmin = geo["dmin"]
     snr = lin(snr_db)
     xarg = dmin * np.sqrt(snr / 2.0)            # dmin / sqrt(2 N0), N0 = 1/snr
-    kappa = np.maximum(1.0, xarg * xarg)        # d log Q / d log x ~ x^2
+    # d log Q / d log x <~ max(1, x^2); the emitted coordinates (magnitude ~1) carry absolute
+    # rounding ~eps, i.e. a relative error ~eps/dmin in the minimum distance extracted from them
+    kappa = np.maximum(1.0, xarg * xarg) * max(1.0, 1.0 / dmin)
     arg = snr_db if form == "1d" else snr_db.reshape(1, -1)
     ser = np.asarray(m.calcTheoreticalSER(arg), dtype=float)
     ber = np.asarray(m.calcTheoreticalBER(arg), dtype=float)
@@ -305,7 +314,7 @@ def check_vector(chk, lab, m, geo, snr_db, Ls, spec, form):
     if i is not None:
         fail(("SER", base, "vs_emitted_constellation"), i, float(ser[i]), float(want[i]),
              dmin=dmin, energy=geo["energy"])
-    if base in ("psk", "qpsk"):
+    if base == "psk":
         exact = craig(dmin * dmin * snr / 4.0, math.pi - math.pi / geo["M"])
         slack = 1 + QUAD_REL + C_REL * EPS * kappa
         i = bad_index(exact > ser * slack + PROB_FLOOR)
@@ -342,7 +351,7 @@ def check_scalars(chk, lab, m, geo, snr_db, Ls, spec, ref):
                 # PER / SE amplify a BER perturbation by up to L
                 tol = C_REL * EPS * ref["kappa"][i] * max(scale, 0.0) * amp + PROB_FLOOR * amp
                 if not ok or abs(float(g) - float(want)) > tol:
-                    chk.fail(("scalar_vs_array", name, vname), dict(spec, snr_db=d, fn=name, variant=vname),
+                    chk.fail(("scalar_vs_array", name), dict(spec, snr_db=d, fn=name, variant=vname),
                              observed=g, expected=float(want))
 
 
@@ -358,12 +367,15 @@ def check_object(chk, spec, tier):
             chk.fail(("emitted", base, "malformed_constellation"), spec, observed=sym.shape)
             return
         geo = geometry(sym)
+        if not geo["dmin"] > 0.0:
+            chk.fail(("emitted", base, "repeated_points"), spec, observed="dmin = %r" % geo["dmin"])
+            return
         chk.nontriv((kind, M, bfs.digest(sym, 9)))
-        chk.outcome("structure", (base, M, geo["levels"], geo["circle"], geo["grid"]))
+        chk.outcome("structure", (kind, M, geo["levels"] if base == "qam" else 0, geo["circle"], geo["grid"]))
         if abs(geo["energy"] - 1.0) > ENERGY_TOL:
             chk.fail(("emitted", base, "mean_energy"), spec, observed=geo["energy"], expected="1 +- %g" % ENERGY_TOL,
                      msg="the theoretical curves are functions of Es/N0 with Es = 1")
-        if base in ("psk", "qpsk") and not geo["circle"]:
+        if base == "psk" and not geo["circle"]:
             chk.fail(("emitted", "psk", "not_equally_spaced_on_a_circle"), spec, observed=geo)
         if base == "qam" and not (geo["grid"] and geo["levels"] ** 2 == M):
             chk.fail(("emitted", "qam", "not_a_square_grid"), spec, observed=geo)
@@ -442,8 +454,10 @@ def check_primitives(chk, tier):
 
 
 def validate_quadrature():
-    """the fixed rule must reproduce the two closed forms of Craig's integral"""
-    snr = lin(np.arange(-30.0, 60.5, 0.5))
+    """the fixed rule must reproduce the two closed forms of Craig's integral
+    (M=2, M=4) and must agree with its own refinement for every PSK order"""
+    d = np.concatenate([np.arange(-30.0, 60.25, 0.25), [100.0, 150.0, 200.0]])
+    snr = lin(d)
     worst = 0.0
     for M, closed in ((2, lambda s: Q(np.sqrt(2 * s))),
                       (4, lambda s: 2 * Q(np.sqrt(s)) - Q(np.sqrt(s)) ** 2)):
@@ -452,6 +466,13 @@ def validate_quadrature():
         w = closed(snr)
         sel = w > PROB_FLOOR
         worst = max(worst, float(np.max(np.abs(c[sel] - w[sel]) / w[sel])))
+    for k in range(1, 11):
+        M = 2 ** k
+        a = snr * math.sin(math.pi / M) ** 2
+        c1 = craig(a, math.pi - math.pi / M)
+        c2 = craig(a, math.pi - math.pi / M, refine=True)
+        sel = c2 > PROB_FLOOR
+        worst = max(worst, float(np.max(np.abs(c1[sel] - c2[sel]) / c2[sel])))
     x, w = _GL
     worst = max(worst, abs(float(w.sum()) - 2.0), abs(float((w * x ** 2).sum()) - 2.0 / 3.0))
     return worst
@@ -465,7 +486,7 @@ def main(chk: Check):
     if not worst < QUAD_REL / 10:
         raise Broken("Gauss-Legendre Craig integral inaccurate: relative error %g" % worst)
     chk.extra["tolerance_c"] = C_REL
-    chk.extra["tolerance_kappa"] = "max(1, (dmin*sqrt(snr/2))^2)"
+    chk.extra["tolerance_kappa"] = "max(1, (dmin*sqrt(snr/2))^2) * max(1, 1/dmin)"
     chk.extra["probability_floor"] = PROB_FLOOR
     chk.extra["quadrature_relative_slack"] = QUAD_REL
     chk.extra["energy_tolerance"] = ENERGY_TOL
